@@ -28,14 +28,16 @@ VARIABLES l,
           root,        \* the position last set successfully (NoPos = unknown / none)
           sroot,       \* the position the running / last search was started from
           go,          \* the last accepted go: [t, params, infotime (or -1), stopped]
-          waiting      \* a bounded go is outstanding and the driver is waiting for its bestmove
+          waiting      \* C19 monitor: [acc: info lines of the running search, memo: first result per (position, depth)
+                       \* of a search started from a fresh engine or right after ucinewgame, fresh: no go since the reset]
 vars == <<l, pending, root, sroot, go, waiting>>
 
 ToSet(q) == { q[i] : i \in DOMAIN q }
 F(ok, prop, what, detail) == IF ok THEN {} ELSE { [p |-> prop, w |-> what, d |-> detail] }
 Report(fs) == IF fs = {} THEN TRUE ELSE PrintT(<<"FAIL", l, ToJson(fs)>>)
 NoPos == [board |-> EmptyBoard, stm |-> White, cast |-> {}, ep |-> 8]
-NoGo == [t |-> 0, params |-> [none |-> 0], infotime |-> -1, stopped |-> FALSE]
+NoGo == [t |-> 0, params |-> [none |-> 0], infotime |-> -1, stopped |-> FALSE, fresh |-> FALSE]
+NoAcc == [depths |-> << >>, scores |-> << >>, pvs |-> << >>]
 Tolerance == 2500   \* ms, driver clock: wide enough for a loaded machine
 
 RECURSIVE ApplyTexts(_, _)
@@ -61,12 +63,13 @@ Remaining(params, side) ==
   ELSE IF side = White THEN params.wtime ELSE params.btime
 Timed(params) == Has(params, "movetime") \/ (Has(params, "wtime") /\ Has(params, "btime") /\ Has(params, "winc") /\ Has(params, "binc"))
 
-Init == l = 1 /\ pending = 0 /\ root = NoPos /\ sroot = NoPos /\ go = NoGo /\ waiting = FALSE
+Init == l = 1 /\ pending = 0 /\ root = NoPos /\ sroot = NoPos /\ go = NoGo /\ waiting = [acc |-> NoAcc, memo |-> {}, fresh |-> TRUE]
 
 IsEv(name) == l <= Len(Rec) /\ Rec[l].ev = name
 
 Session == /\ IsEv("session")
-           /\ pending' = 0 /\ root' = NoPos /\ sroot' = NoPos /\ go' = NoGo /\ waiting' = FALSE /\ l' = l + 1
+           /\ pending' = 0 /\ root' = NoPos /\ sroot' = NoPos /\ go' = NoGo
+           /\ waiting' = [waiting EXCEPT !.acc = NoAcc, !.fresh = TRUE] /\ l' = l + 1
 
 Cmd ==
   /\ IsEv("cmd")
@@ -98,13 +101,13 @@ Cmd ==
                           ELSE {}))
                /\ IF accepted
                   THEN /\ pending' = pending + 1 /\ sroot' = root /\ root' = NoPos
-                       /\ go' = [t |-> e.t, params |-> e.params, infotime |-> it, stopped |-> FALSE]
-                       /\ waiting' = FALSE
+                       /\ go' = [t |-> e.t, params |-> e.params, infotime |-> it, stopped |-> FALSE, fresh |-> waiting.fresh]
+                       /\ waiting' = [waiting EXCEPT !.acc = NoAcc, !.fresh = FALSE]
                   ELSE UNCHANGED <<pending, sroot, root, go, waiting>>
        [] e.kind = "stop" ->
             /\ Report(common) /\ go' = [go EXCEPT !.stopped = TRUE] /\ UNCHANGED <<pending, root, sroot, waiting>>
        [] e.kind = "ucinewgame" ->
-            /\ Report(common) /\ root' = NoPos /\ UNCHANGED <<pending, sroot, go, waiting>>
+            /\ Report(common) /\ root' = NoPos /\ waiting' = [waiting EXCEPT !.fresh = TRUE] /\ UNCHANGED <<pending, sroot, go>>
        [] e.kind \in {"show", "d"} ->
             /\ Report(common
                  \cup (IF Has(e, "show") /\ ~e.refused /\ root # NoPos /\ e.show.fl # << >>
@@ -133,7 +136,19 @@ Best ==
                        [allotted |-> go.infotime, elapsed |-> e.t - go.t])
                 ELSE {}))
   /\ pending' = IF pending >= 1 THEN pending - 1 ELSE 0
-  /\ UNCHANGED <<root, sroot, go, waiting>> /\ l' = l + 1
+  \* C19: a depth-limited search started from a fresh engine / right after ucinewgame is a function of (position, depth)
+  /\ LET e == Rec[l]
+         repro == pending >= 1 /\ go.fresh /\ sroot # NoPos /\ Has(go.params, "depth") /\ ~Timed(go.params)
+                  /\ ~go.stopped /\ ~Has(go.params, "infinite")
+         key == <<FenLine(sroot), go.params.depth>>
+         result == [best |-> e.move, depths |-> waiting.acc.depths, scores |-> waiting.acc.scores, pvs |-> waiting.acc.pvs]
+     IN /\ Report(IF repro
+                  THEN UNION { F(x.r = result, "C19", "fixed-depth search after a reset is not reproducible",
+                                 [fen |-> key[1], depth |-> key[2], first |-> x.r, now |-> result]) : x \in { y \in waiting.memo : y.k = key } }
+                  ELSE {})
+        /\ waiting' = [waiting EXCEPT !.acc = NoAcc,
+                                      !.memo = IF repro /\ ~\E y \in waiting.memo : y.k = key THEN @ \cup { [k |-> key, r |-> result] } ELSE @]
+  /\ UNCHANGED <<root, sroot, go>> /\ l' = l + 1
 
 Pv ==
   /\ IsEv("pv")
@@ -141,16 +156,19 @@ Pv ==
             THEN F(Playable(sroot, Rec[l].line), "C18", "a printed principal variation is not a playable line",
                    [fen |-> FenLine(sroot), pv |-> Rec[l].line])
             ELSE {})
-  /\ UNCHANGED <<pending, root, sroot, go, waiting>> /\ l' = l + 1
+  /\ waiting' = [waiting EXCEPT !.acc.pvs = Append(@, Rec[l].line)]
+  /\ UNCHANGED <<pending, root, sroot, go>> /\ l' = l + 1
 
 Depth ==
   /\ IsEv("depth")
   /\ Report(IF pending >= 1 /\ Has(go.params, "depth") /\ go.params.depth >= 1
             THEN F(Rec[l].d <= go.params.depth, "C08", "search went deeper than the depth limit", [limit |-> go.params.depth, depth |-> Rec[l].d])
             ELSE {})
-  /\ UNCHANGED <<pending, root, sroot, go, waiting>> /\ l' = l + 1
+  /\ waiting' = [waiting EXCEPT !.acc.depths = Append(@, Rec[l].d)]
+  /\ UNCHANGED <<pending, root, sroot, go>> /\ l' = l + 1
 
-Score == IsEv("score") /\ UNCHANGED <<pending, root, sroot, go, waiting>> /\ l' = l + 1
+Score == /\ IsEv("score") /\ waiting' = [waiting EXCEPT !.acc.scores = Append(@, Rec[l].cp)]
+         /\ UNCHANGED <<pending, root, sroot, go>> /\ l' = l + 1
 
 \* the driver waited (watchdog) for the bestmove of a go that is bounded by depth or time
 Waited ==
